@@ -1,8 +1,15 @@
 #!/bin/sh
-# re-evaluate every stored seed against the current checkers (patch applied to /repo and undone)
+# re-evaluate every stored seed against the current checkers (scratch worktree with the patch; /repo untouched)
 cd "$(dirname "$0")/.."
+n=0
+ids=""
 for d in seeded/*/; do
   id=$(basename "$d"); [ "$id" = refactors ] && continue
+  ids="$ids $id"
   prop=$(python3 -c "import json;print(json.load(open('$d/meta.json')).get('breaks_property') or '')" 2>/dev/null)
-  python3 tools/seed_eval.py "$id" "$d" --property "$prop" --skip-verify 2>&1 | head -1
+  (SEED_JOBS=6 python3 tools/seed_eval.py "$id" "$d" --property "$prop" --skip-verify 2>&1 | head -1 > /tmp/seed_$id.out) &
+  n=$((n+1))
+  if [ $((n % 3)) -eq 0 ]; then wait; fi
 done
+wait
+for id in $ids; do cat /tmp/seed_$id.out; rm -f /tmp/seed_$id.out; done
